@@ -42,6 +42,8 @@ func runC03(p *Program, r *Report) {
 	c14sideUse(p, r, "C03.side.use")
 	c04state(p, r, "C03.state")
 	cReasons(p, r, "C03.reasons")
+	// the echo of a received close frame is marshalled by bytesErr: whatever parseClosePayload accepts must be sendable (seed C03-M)
+	shareAs(r, "C03.echo.bytesErr", "C03.echo.bytesErr", func(sub *Report) { c02close(p, sub, "C03.echo") })
 	// frames that arrive in the same packet as the handshake (server side)
 	sub := newReport(r.Prop, r.Tier)
 	c11gate(p, sub, "C03.handoff")
